@@ -442,3 +442,140 @@ pub fn gen_disp_actions(rng: &mut Rng, random: usize) -> Vec<MigrationAction> {
     }
     out
 }
+
+// ------------------------------------------------------------------ systematic import coverage (C18)
+/// One way of making the Python exporters import a name (or set a `needs_*` flag).
+#[derive(Clone, Copy, Debug, PartialEq)]
+pub enum Feature {
+    Ty(&'static str),   // a NOT NULL column of that type
+    Nullable,           // typing.Optional
+    FkSelf,             // ForeignKey
+    Index,              // Index (sqlalchemy) / index=True (sqlmodel)
+    CompositeIndex,     // Index (both)
+    CompositeUnique,    // UniqueConstraint (both)
+    ServerDefault,      // the lower-case helper `text`
+}
+
+pub fn import_features() -> Vec<Feature> {
+    let mut v: Vec<Feature> = ["smallint", "bigint", "real", "text", "boolean", "date", "time", "timestamp", "timestamptz", "interval", "bytea", "uuid",
+        "json", "inet", "xml", "varchar", "char", "numeric", "custom", "enum_str", "enum_int"].iter().map(|t| Feature::Ty(t)).collect();
+    v.extend([Feature::Nullable, Feature::FkSelf, Feature::Index, Feature::CompositeIndex, Feature::CompositeUnique, Feature::ServerDefault]);
+    v
+}
+
+fn feature_type(name: &str) -> ColumnType {
+    use SimpleColumnType::*;
+    let s = |x| ColumnType::Simple(x);
+    match name {
+        "smallint" => s(SmallInt), "bigint" => s(BigInt), "real" => s(Real), "text" => s(Text), "boolean" => s(Boolean), "date" => s(Date),
+        "time" => s(Time), "timestamp" => s(Timestamp), "timestamptz" => s(Timestamptz), "interval" => s(Interval), "bytea" => s(Bytea),
+        "uuid" => s(Uuid), "json" => s(Json), "inet" => s(Inet), "xml" => s(Xml),
+        "varchar" => ColumnType::Complex(ComplexColumnType::Varchar { length: 32 }),
+        "char" => ColumnType::Complex(ComplexColumnType::Char { length: 2 }),
+        "numeric" => ColumnType::Complex(ComplexColumnType::Numeric { precision: 10, scale: 2 }),
+        "custom" => ColumnType::Complex(ComplexColumnType::Custom { custom_type: "citext".into() }),
+        "enum_str" => ColumnType::Complex(ComplexColumnType::Enum { name: "level_s".into(), values: EnumValues::String(vec!["low".into(), "high".into()]) }),
+        _ => ColumnType::Complex(ComplexColumnType::Enum { name: "level_i".into(), values: EnumValues::Integer(vec![NumValue { name: "low".into(), value: 1 }, NumValue { name: "high".into(), value: 2 }]) }),
+    }
+}
+
+fn apply_feature(t: &mut TableDef, f: Feature) {
+    let has = |t: &TableDef, n: &str| t.columns.iter().any(|c| c.name == n);
+    match f {
+        Feature::Ty(name) => {
+            let cn = format!("c_{}", name);
+            if !has(t, &cn) {
+                t.columns.push(col(&cn, feature_type(name), false));
+            }
+        }
+        Feature::Nullable => {
+            if !has(t, "opt") {
+                t.columns.push(col("opt", int(), true));
+            }
+        }
+        Feature::FkSelf => {
+            if !has(t, "parent_id") {
+                t.columns.push(col("parent_id", int(), false));
+                let n = t.name.clone();
+                t.constraints.push(TableConstraint::ForeignKey { name: None, columns: vec!["parent_id".into()], ref_table: n, ref_columns: vec!["id".into()], on_delete: None, on_update: None });
+            }
+        }
+        Feature::Index => {
+            if !has(t, "ix") {
+                t.columns.push(col("ix", int(), false));
+                t.constraints.push(TableConstraint::Index { name: None, columns: vec!["ix".into()] });
+            }
+        }
+        Feature::CompositeIndex => {
+            if !has(t, "ci_a") {
+                t.columns.push(col("ci_a", int(), false));
+                t.columns.push(col("ci_b", int(), false));
+                t.constraints.push(TableConstraint::Index { name: None, columns: vec!["ci_a".into(), "ci_b".into()] });
+            }
+        }
+        Feature::CompositeUnique => {
+            if !has(t, "cu_a") {
+                t.columns.push(col("cu_a", int(), false));
+                t.columns.push(col("cu_b", int(), false));
+                t.constraints.push(TableConstraint::Unique { name: None, columns: vec!["cu_a".into(), "cu_b".into()] });
+            }
+        }
+        Feature::ServerDefault => {
+            if !has(t, "sd") {
+                let mut c = col("sd", int(), false);
+                c.default = Some(DefaultValue::String("abs(1)".into()));
+                t.columns.push(c);
+            }
+        }
+    }
+}
+
+fn base_table(name: String) -> TableDef {
+    let mut t = TableDef { name, description: None, columns: vec![col("id", int(), false)], constraints: vec![] };
+    t.constraints.push(TableConstraint::PrimaryKey { auto_increment: false, columns: vec!["id".into()] });
+    t
+}
+
+/// For every pair of import features one table in which they co-occur (so every pair of importable names of every
+/// import line meets in some table), single-feature tables, and all-at-once tables; packed a few tables per set.
+/// Deterministic: no random choice.
+pub fn gen_import_sets(per_set: usize) -> Vec<Vec<TableDef>> {
+    let fs = import_features();
+    let mut tables: Vec<TableDef> = vec![];
+    for (i, f) in fs.iter().enumerate() {
+        let mut t = base_table(format!("one_{}", i));
+        apply_feature(&mut t, *f);
+        tables.push(t);
+        for (j, g) in fs.iter().enumerate().skip(i + 1) {
+            let mut t = base_table(format!("pair_{}_{}", i, j));
+            apply_feature(&mut t, *f);
+            apply_feature(&mut t, *g);
+            tables.push(t);
+        }
+    }
+    let mut all = base_table("all_features".into());
+    for f in &fs {
+        apply_feature(&mut all, *f);
+    }
+    tables.push(all);
+    // the same features inserted in the opposite order (another insertion history of the hash sets)
+    let mut rev = base_table("all_features_reversed".into());
+    for f in fs.iter().rev() {
+        apply_feature(&mut rev, *f);
+    }
+    tables.push(rev);
+    let mut out = vec![];
+    for chunk in tables.chunks(per_set.max(1)) {
+        if let Some(n) = normalized_slice(chunk) {
+            if gener::loader_accepts(&n) {
+                out.push(n);
+                continue;
+            }
+        }
+        // should not happen: keep the tables one per set so that nothing is silently dropped
+        for t in chunk {
+            out.push(vec![t.clone()]);
+        }
+    }
+    out
+}
